@@ -37,7 +37,18 @@ func apiState(w *World, h *HistRun) (string, any) {
 	for _, supi := range sortedKeys(s.UEs) {
 		nu = append(nu, fmt.Sprintf("%s:%s:%d", supi[len(supi)-2:], s.UEs[supi].NotifyUri, s.UEs[supi].Records))
 	}
-	return k + "|" + strings.Join(st, ",") + "|" + strings.Join(nu, ","), ai
+	// ghost state the recharge oracle depends on: the notification URI of the latest accepted create per subscriber
+	ghost := map[string]string{}
+	for _, stp := range h.Steps {
+		if stp.Op.K == "create" && stp.Resp.Code == 201 {
+			ghost[stp.Supi] = stp.Op.Notify
+		}
+	}
+	var gs []string
+	for _, supi := range sortedKeys(ghost) {
+		gs = append(gs, supi[len(supi)-2:]+"=>"+ghost[supi])
+	}
+	return k + "|" + strings.Join(st, ",") + "|" + strings.Join(nu, ",") + "|" + strings.Join(gs, ","), ai
 }
 
 // effectView: the parts of the state a rejected request must leave alone
